@@ -383,7 +383,7 @@ def judge(st, docs, k, prev, rec, V, flags):
         for r in held:
             fp = getattr(r, "id_hex", None)
             if fp in want[coll] and objs[fp] is not r:
-                V(coll + "-mismatch", "extra:foreign-object", {"document": k, "id": fp})
+                V(coll + "-mismatch", "extra:stale-object-of-flagged-relay", {"document": k, "id": fp})
         for fp in sorted(got_ids - want[coll]):
             cls = "extra:relay-left-consensus" if fp not in wids else "extra:relay-lost-flag"
             V(coll + "-mismatch", cls, {"document": k, "id": fp, "held": sorted(got_ids)[:6],
